@@ -31,7 +31,9 @@ PROPS = {
                 explanation="absence of overflow / failed assertion (former debug_assert!) / unwrap / out-of-bounds in every function under contract, under the stated bounds; error spans are token boundaries (LEXER + PARSER); eval() driver, Db::lookup, Display and the CLI are a bounded token-soup stand-in"),
     "C18": dict(units=["EVALFACT"], standin=True, level="proof",
                 frame_scan=dict(cid="evalfact.frame_scan", idents=["describe", "descriptions"], item_file="src/eval.rs", item="fn eval :: arm SENTENCE | WORD",
-                                declared_in=["src/bin/", "src/query.rs"], what="`options.describe` is read and `descriptions` is written only inside the SENTENCE|WORD arm of eval() (syntactic scan of src/**/*.rs, comments excluded)"),
+                                declared_in=["src/bin/", "src/query.rs"],
+                                no_interior_mutability={"src/db.rs": ["Mutex", "RwLock", "RefCell", "Cell", "OnceCell", "OnceLock", "UnsafeCell", "AtomicBool", "AtomicUsize", "AtomicU64", "unsafe", "thread_local", "lazy_static"]},
+                                what="`options.describe` is read and `descriptions` is written only inside the SENTENCE|WORD arm of eval() (syntactic scan of src/**/*.rs, comments excluded)"),
                 explanation="the only site that reads `describe` and writes `descriptions` (SENTENCE|WORD arm of eval(), lifted by R16) is proved to return a value that is a function of the lookup result alone, to push exactly (phrase, constant used) iff describe is set, and to leave options / db / source unchanged; the frame (no other site) is a syntactic scan; Db::lookup is assumed to be a function of (db, phrase); recursion through eval() is bounded-checked"),
 }
 
